@@ -48,10 +48,15 @@ Definition u_to_int (x : N) : Z :=                                        (* int
 Definition some_error : error := Some [].
 Definition errors_WithStack (e : error) : error := match e with None => None | Some _ => some_error end.
 
-(* os.FileInfo: the record of what its methods return (only IsDir so far).  A nil FileInfo cannot be
-   represented: where Go passes nil (deletions) any record may be passed, its methods are then not called
+(* os.FileInfo: the record of what its methods return — IsDir(), Mode() (os.FileMode bits) and Sys(), of which
+   only the type assertion Sys().( *types.Stat ) is translated: [fi_Sys] is Some s when the assertion succeeds
+   (S is instantiated with Model/Stat.v's stat by the translator), None when it fails.  A nil FileInfo cannot
+   be represented: where Go passes nil (deletions) any record may be passed, its methods are then not called
    by a panic-free run. *)
-Record FileInfo : Type := { fi_IsDir : bool }.
+Record FileInfo (S : Type) : Type := { fi_IsDir : bool; fi_Mode : N; fi_Sys : option S }.
+Arguments fi_IsDir {S} _.
+Arguments fi_Mode {S} _.
+Arguments fi_Sys {S} _.
 
 (* ---------------------------------------------------------------- slices of any element type
    (a slice is the list of its elements: capacity, sharing and the difference between nil and empty are not
@@ -135,6 +140,15 @@ Fixpoint bytes_cmp (a b : list N) : comparison :=
   end.
 Definition bytes_ltb (a b : list N) : bool := match bytes_cmp a b with Lt => true | _ => false end.
 Definition bytes_leb (a b : list N) : bool := match bytes_cmp a b with Gt => false | _ => true end.
+
+(* map[string]struct{} as a set: the list of the keys stored so far, newest first (duplicates allowed).
+   Only membership is observable: the translator gives no meaning to len or range on a map.
+   nil and empty maps are the same list; writing to a nil map panics in Go (not modelled). *)
+Definition map_is_nil {A} (m : list A) : bool := match m with [] => true | _ => false end.
+Definition set_mem (k : list N) (m : list (list N)) : bool := existsb (fun x => bytes_eqb k x) m.   (* _, ok := m[k] *)
+Definition set_add (m : list (list N)) (k : list N) : list (list N) := k :: m.                      (* m[k] = struct{}{} *)
+Definition set_del (m : list (list N)) (k : list N) : list (list N) := filter (fun x => negb (bytes_eqb k x)) m.   (* delete(m, k) *)
+
 
 (* ---------------------------------------------------------------- standard library (Linux) *)
 Definition filepath_Separator : N := 47.      (* path/filepath.Separator = '/' *)
